@@ -5,6 +5,7 @@ import (
 	"io"
 	"math/rand/v2"
 	"mime/multipart"
+	"net/url"
 	"os"
 	"path/filepath"
 	"regexp"
@@ -71,11 +72,13 @@ func parserRequestURL(c *Client, req *Request) error {
 	}
 
 	// Set path parameters from the request and client.
+	// The values are data, not URL syntax: escape what would otherwise end the path ('?', '#')
+	// or start another segment.
 	req.path.VisitAll(func(key, val string) {
-		uri = strings.ReplaceAll(uri, ":"+key, val)
+		uri = strings.ReplaceAll(uri, ":"+key, url.PathEscape(val))
 	})
 	c.path.VisitAll(func(key, val string) {
-		uri = strings.ReplaceAll(uri, ":"+key, val)
+		uri = strings.ReplaceAll(uri, ":"+key, url.PathEscape(val))
 	})
 
 	// Set the URI in the raw request.
